@@ -190,6 +190,16 @@ func c12Run(rc *simrt.RunCtx) {
 			np.s2c.stallUntil = 1 << 62
 			np.s2c.mu.Unlock()
 		}
+		if rc.Pick(2, "net.serial-sender") == 1 {
+			// ... and the callback serialises its callers: the FIN's send
+			// has to wait behind the blocked one, whatever its own deadline
+			for _, l := range []*link{np.c2s, np.s2c} {
+				l.mu.Lock()
+				l.serial = true
+				l.mu.Unlock()
+			}
+			rc.Fault("serialised-send-callback")
+		}
 		rc.Fault("stall-at-close")
 		// let the stall begin a little before Close, so that Close can land
 		// while a (re)transmission is blocked inside the send callback
